@@ -370,10 +370,16 @@ def rule_handmade_errors(ctx, rid="R6.6"):
                 hits.append(c)
         if not hits:
             continue
+        def only_called_from_allowed(g, depth=0):
+            """a private helper all of whose call sites are in an allowed function does that function's work"""
+            callers = [c for c in prog.funcs.values() if c is not g and g in calls.successors(c)]
+            return bool(callers) and depth < 3 and all(c.qual in allowed or only_called_from_allowed(c, depth + 1) for c in callers)
         if f.qual in allowed:
             r.ok(site(f), "%s (%d writes)" % (allowed[f.qual], len(hits)))
             if f.qual == "_legacy_validators.properties_draft3":
                 seen_d3 += 1
+        elif f.cls is None and only_called_from_allowed(f):
+            r.ok(site(f), "helper called only from an allowed site (%d writes)" % len(hits))
         else:
             h = hits[0]
             r.fail("%s|writes-error-location" % f.qual, site(f, getattr(h, "node", h)), "%s writes an error's location/keyword fields by hand" % f.qual)
@@ -487,3 +493,7 @@ def run(ctx):
     # names, which is what the recorded subschema and keyword value are compared with
     from . import c14
     c14.run_rules(ctx)
+    # R6.9: on every row of the applicator tables the path/schema_path on each forwarded error (also inside context) are the
+    # index/key of the part and of the subschema that produced it (the semantic twin of the provenance rules R6.1/R6.2)
+    from .applic import rule_applicators
+    rule_applicators(ctx, "R6.9", "paths")
